@@ -233,6 +233,12 @@ func (s *Cron) Add(j *Job) error {
 		return err
 	}
 
+	// A new job has no entry in the time index yet.  The given
+	// document can carry a time key anyway (a client re-posting what
+	// it got from us): update() would remove that entry, which
+	// belongs to some other job.
+	j.TId = ""
+
 	f, err := s.update(j)
 	if err != nil {
 		log.Printf("Cron.Add update error: %v", err)
